@@ -110,6 +110,10 @@ def obligations(tier, seed):
     base += profiles.p_absence(wmax=2, H=H, kinds=(0, 1) if not thorough else (0, 1, 2, 3), worker_absence=False)
     base += profiles.p_rules(wmax=2, H=H, rules=(0, 4, 5) if not thorough else range(9))
     # tasks listed in the workflow in reverse order (a successor before its predecessor)
+    for ob in profiles.wf_cubes(3, ["private"], 2, H=H, name="m3rev", kinds=(2, 3), edge_sets=[[(0, 1), (1, 2)], [(0, 1), (0, 2)]]):
+        ob = dict(ob)
+        ob["cube"] = {"spec": dict(ob["cube"]["spec"], tl_order=[2, 1, 0])}
+        base.append(ob)
     for ob in profiles.wf_cubes(2, ["private", "shared1"], 3, H=H, name="m2rev"):
         ob = dict(ob)
         ob["cube"] = {"spec": dict(ob["cube"]["spec"], tl_order=[1, 0])}
